@@ -87,13 +87,16 @@ def run(ctx):
         ctx.log("binding self-test: one logged shard index changed")
     if not shards or not hashes:
         raise vlib.Infra("empty trace")
-    merged = ctx.write_ndjson("trace.ndjson", hashes + shards)
+    # ordered by label set, hash events first inside a group (Trace_Shard.tla keeps H of one label set at a time)
+    ordered = sorted(hashes, key=lambda e: e["ls"]) + sorted(shards, key=lambda e: e["ls"])
+    ordered.sort(key=lambda e: (e["ls"], 0 if e["e"] == "hash" else 1))
+    merged = ctx.write_ndjson("trace.ndjson", ordered)
     tv = ctx.tlc("postings", "Trace_Shard", "Trace_Shard.cfg", deque=True, files={"trace.ndjson": merged},
                  allow_violation=True, timeout=3000)
     ctx.account(tv)
     ctx.log("trace validation: %d hash events, %d shard events, %d states (%.0fs)" % (len(hashes), len(shards), tv.distinct, tv.wall))
     if tv.violated:
-        m = [l for l in tv.out.splitlines() if "bad = " in l]
+        m = [l for l in tv.out.splitlines() if "bad = " in l and '"none"' not in l]
         detail = m[-1].strip() if m else tv.violated
         ctx.add_violation("recorded shard / StableHash trace rejected by Trace_Shard.tla (%s): %s" % (tv.violated, detail[:400]),
                           "trace:" + tv.violated, {"detail": detail[:2000]})
